@@ -140,6 +140,103 @@ Qed.
 
 End C33.
 
+(* ---- run ids: every thread belongs to a Run that has started, and a completed result always carries
+   the id of such a Run (ids start at 1; the zero id of a fresh result object never survives the
+   completion, whatever the query returned - a value or a fatal error, which are one opaque number
+   oval for the executor) ---- *)
+Section RunIds.
+Variable w : world.
+Variable par : nat.
+Hypothesis Hnp : forall k, wpanic w k = None.
+Variable inputs : key -> nat.
+
+Record inv_rid (s : state) : Prop := {
+  r_thr : forall id, id < nthr s -> 1 <= trun (thr s id) <= nrun s;
+  r_obj : forall o, oclosed (objs s o) = true -> 1 <= orun (objs s o) <= nrun s
+}.
+
+Lemma trun_apply_slot m sl x : trun (apply_slot m sl x) = trun (m x).
+Proof.
+  destruct sl as [[[[p i] r] h]|]; cbn; [|reflexivity].
+  unfold upd. destruct (Nat.eqb x p) eqn:E; [apply Nat.eqb_eq in E; subst; reflexivity|reflexivity].
+Qed.
+
+Lemma inv_rid_step s id s' : inv1 w par s -> inv_rid s -> step w s id = Some s' -> inv_rid s'.
+Proof.
+  intros Hi Hr Hs. destruct (step_spec _ _ _ _ Hs) as (Hid & e & p & Hl & -> & _).
+  pose proof (step_self_id w s id e Hl) as (Hrun & _).
+  pose proof (r_thr _ Hr id Hid) as Hme.
+  assert (Hthr : forall x, x < nthr s -> 1 <= trun (apply_slot (upd (thr s) id (e_self e)) (e_slot e) x) <= nrun s).
+  { intros x Hx. rewrite trun_apply_slot. unfold upd. destruct (Nat.eqb x id); [rewrite Hrun; assumption|].
+    apply (r_thr _ Hr x Hx). }
+  constructor.
+  - intros x Hx. unfold apply_eff in *. cbn [thr nthr nrun] in *.
+    destruct (step_kinds w s id e Hl) as [(_ & Sp)|[(r0 & p0 & i0 & _ & _ & Sp & _)|(g & j & nw & grp & d & _ & _ & _ & _ & Sp & _)]];
+      rewrite Sp in *.
+    + apply Hthr. assumption.
+    + apply Hthr. assumption.
+    + cbv iota in *. destruct (Nat.eq_dec x (nthr s)) as [->|Hne].
+      * rewrite upd_same. cbn. assumption.
+      * rewrite upd_other by assumption. apply Hthr. lia.
+  - intros o Ho. unfold apply_eff in *. cbn [objs nrun] in *.
+    destruct (step_mem w par s id e Hi Hid Hl) as [(_ & B & _)|[(k0 & _ & _ & _ & _ & B & _)|[(d & _ & _ & B & _)|[(o0 & path & _ & _ & _ & B)|(k0 & _ & _ & _ & _ & B & _)]]]];
+      rewrite B in *.
+    + apply (r_obj _ Hr). assumption.
+    + unfold upd in *. destruct (Nat.eqb o (nobj s)); [cbn in Ho; discriminate|apply (r_obj _ Hr); assumption].
+    + apply (r_obj _ Hr). assumption.
+    + unfold upd in *. destruct (Nat.eqb o o0) eqn:E; [|apply (r_obj _ Hr); assumption].
+      apply Nat.eqb_eq in E. subst o0. cbn in *. apply (r_obj _ Hr). assumption.
+    + unfold upd in *. destruct (Nat.eqb o (tobj (thr s id))); [cbn; assumption|apply (r_obj _ Hr); assumption].
+Qed.
+
+Lemma inv_rid_event s e s' : inv1 w par s -> inv_rid s -> do_event w s e = Some s' -> inv_rid s'.
+Proof.
+  intros Hi Hr He. destruct e as [t|ks|ks|ks vs]; cbn [do_event] in He.
+  - eapply inv_rid_step; eassumption.
+  - destruct (forallb (fun k => Nat.ltb k (wn w)) ks); inversion He; subst. constructor; cbn.
+    + intros x Hx. unfold upd. destruct (Nat.eqb x (nthr s)) eqn:E; [cbn; lia|].
+      apply Nat.eqb_neq in E. pose proof (r_thr _ Hr x ltac:(lia)). lia.
+    + intros o Ho. pose proof (r_obj _ Hr o Ho). lia.
+  - destruct (quiescent s); inversion He; subst. constructor; cbn; [apply (r_thr _ Hr)|apply (r_obj _ Hr)].
+  - destruct (quiescent s); inversion He; subst. constructor; cbn; [apply (r_thr _ Hr)|apply (r_obj _ Hr)].
+Qed.
+
+Lemma reach_inv_rid s : reach w par inputs s -> inv_rid s.
+Proof.
+  induction 1 as [|s e s' Hr IH He].
+  - constructor; cbn; [intros; lia|intros o Ho; discriminate].
+  - eapply inv_rid_event; [eapply reach_inv1; eassumption|exact IH|exact He].
+Qed.
+
+(* a memoized (completed) result - whether it holds a value or a fatal error - carries the id of a Run
+   that has started: it is never left with the zero id of a fresh result object *)
+Theorem result_run_id_valid s k o :
+  reach w par inputs s -> tmap s k = TRes o -> oclosed (objs s o) = true ->
+  1 <= orun (objs s o) <= nrun s.
+Proof. intros Hr _ Hc. apply (r_obj _ (reach_inv_rid s Hr)). assumption. Qed.
+
+(* the step that completes a result leaves it in the map, stamped with the run id of the completing
+   thread, and hands Changed = true to that thread's own caller - whatever the query returned *)
+Theorem completion_reports_changed s id s' k o :
+  reach w par inputs s -> step w s id = Some s' ->
+  tmap s k = TRes o -> oclosed (objs s o) = false -> oclosed (objs s' o) = true ->
+  tmap s' k = TRes o /\ orun (objs s' o) = trun (thr s' id) /\ 1 <= orun (objs s' o) /\
+  tpc (thr s' id) = PReturn (DVal (oval (objs s' o)) true).
+Proof.
+  intros Hr Hs Hk Hc Hc'. destruct (reach_inv2 w par Hnp inputs s Hr) as [Hi Hj].
+  assert (Hr' : reach w par inputs s') by (apply (reach_ev w par inputs s (EStep id) s' Hr); exact Hs).
+  pose proof (r_obj _ (reach_inv_rid s' Hr') o Hc') as Hrid.
+  destruct (step_spec _ _ _ _ Hs) as (Hid & e & p & Hl & -> & Hp).
+  destruct (mem_stable w par s id e p Hi Hj Hid Hl) as (Ma & _ & Mc & _).
+  destruct (Mc _ _ Hk Hc) as [(C1 & _)|(C1 & C2 & C3 & C4)]; [congruence|].
+  split; [apply Ma; assumption|].
+  pose proof (cancelled_false w par s (thr s id) Hi) as Hcn.
+  unfold step_local in Hl. cbv zeta in Hl. rewrite C1, C2, Hcn, andb_false_r in Hl. inversion Hl; subst e.
+  unfold apply_eff in *. cbn in *. rewrite <- C3 in *. rewrite !upd_same in *. cbn in *.
+  repeat split; try reflexivity. lia.
+Qed.
+End RunIds.
+
 (* ---- C35: the long-lived executor agrees with a brand-new one ---- *)
 Section C35.
 Variable w : world.
